@@ -91,6 +91,11 @@ def run(tier):
     J("Cf", pattern_groups(L - 1, vartrail=False), base, options=["yylineno"], flex_args=["-Cf"])
     J("R", pattern_groups(L - 1, api="R"), base, options=["yylineno", "reentrant"], api="R")
     J("C99", pattern_groups(L - 1, api="C99"), base, options=["yylineno"], api="C99")
+    # in-memory sources: each buffer made by yy_scan_string / yy_scan_bytes / yy_scan_buffer starts at line 1 (per buffer in reentrant scanners)
+    for api in ("NR", "R", "C99"):
+        for src in (1, 2, 3):
+            J("scan%d-%s" % (src, api), pattern_groups(L - 1, api=api)[:80], base, options=["yylineno"] + (["reentrant"] if api == "R" else []), api=api,
+              cdefs=["VF_SOURCE_SCAN=%d" % src], per=40)
     J("small-buffers", pattern_groups(L - 1, vartrail=False), dict(base, VF_BUFSIZES="1,2,3", VF_READ_ONE=1), options=["yylineno"])
     for api in ("NR", "R", "C99"):
         o = ["yylineno"] + (["reentrant"] if api == "R" else [])
@@ -98,8 +103,10 @@ def run(tier):
         kn = dict(base, VF_OPMASK=H.opmask(*ops), VF_BUDGET_DEFAULT=1 if quick else 2, VF_BUDGET_TOTAL=1 if quick else 2,
                   VF_UNPUT_CHARS='"a\\n"', VF_OPS_PER_ACTION=2)
         J("ops-" + api, pattern_groups(L - 1, H.ops_action(ops, api), api), kn, api=api, options=o, per=40)
-        for arr in ((0, 1) if api != "R" else (0,)):
-            pass
+        # yymore() and then yyless(n) with n inside the text kept by yymore(): newlines of the earlier match are handed back
+        ml = [H.OP_LESS, H.OP_MORE]
+        J("more-less-" + api, pattern_groups(L - 1, H.ops_action(ml, api), api), dict(base, VF_OPMASK=H.opmask(*ml), VF_BUDGET_DEFAULT=2, VF_BUDGET_TOTAL=2),
+          api=api, options=o, per=40, cdefs=["VF_LESS_BELOW_PREFIX"])
         kn2 = dict(base, VF_OPMASK=H.opmask(H.OP_REJECT), VF_FREE_OP=1, VF_BUDGET_OP=99)
         J("reject-" + api, pattern_groups(L - 1, H.ops_action([H.OP_REJECT], api), api)[:120], kn2, api=api, options=o, per=40)
     J("array-ops", pattern_groups(L - 1, H.ops_action([H.OP_LESS, H.OP_UNPUT, H.OP_INPUT1, H.OP_MORE])),
